@@ -314,3 +314,18 @@ __CPROVER_assigns(S(s)->m, C(c)->active, C(c)->needsScaling,
 ;
 void h_addConstraint(void) { void *s, *c; w_addConstraint(s, c); VERIF_CANARY; }
 #endif
+
+/* ============================================================ Solver::Solver: the facts the chain assumes about construction */
+#if defined(JOB_ctor_body1)
+/* first loop, body for ONE arbitrary variable: its in/out lists are emptied and needsScaling accumulates scale != 1 */
+void w_ctor_body1(void *s, unsigned i)
+__CPROVER_requires(__CPROVER_is_fresh(s, sizeof(struct IncSolver)) && __CPROVER_is_fresh(S(s)->vs, sizeof(struct vec)))
+__CPROVER_requires(S(s)->vs->n >= 1 && S(s)->vs->n <= 1000000 && i < S(s)->vs->n && __CPROVER_is_fresh(S(s)->vs->d, S(s)->vs->n * sizeof(void *)))
+__CPROVER_requires(__CPROVER_is_fresh(((void **)S(s)->vs->d)[i], sizeof(struct Variable)))
+__CPROVER_ensures(S(s)->needsScaling == (__CPROVER_old(S(s)->needsScaling) || V(((void **)S(s)->vs->d)[i])->scale != 1.0))
+__CPROVER_ensures(V(((void **)S(s)->vs->d)[i])->in.n == 0 && V(((void **)S(s)->vs->d)[i])->out.n == 0)
+__CPROVER_assigns(S(s)->needsScaling, V(((void **)S(s)->vs->d)[i])->in.n, V(((void **)S(s)->vs->d)[i])->out.n)
+;
+void h_ctor_body1(void) { void *s; unsigned i; w_ctor_body1(s, i); VERIF_CANARY; }
+#endif
+
